@@ -14,19 +14,19 @@ import (
 )
 
 type Layout struct {
-	Name       string
-	VideoTS    uint32 // media timescale of the video track
-	FrameDur   uint32 // duration of every video frame in VideoTS
-	SegFrames  []int  // video frames per segment
-	AudioSegs  []int  // audio frames (1024 @ 48 kHz) per audio segment; nil = no audio
-	UseTime    bool   // SegmentTimeline + $Time$ templates instead of $Number$ + duration
-	StartNr    int    // startNumber of $Number$ templates
-	Text       bool   // add an stpp track (1 sample per video segment, timescale 1000) -- needs whole-ms segments
-	ExtraVideo string // id of a second video representation (same content), "" = none
-	ExtraSegFrames []int // frames per segment of the second video representation (nil = as the first)
-	VideoID    string
-	TimeOffset uint64 // first video tfdt (media time of the first VoD segment)
-	Shift      []int  // Shift[i]: the boundary after video segment i is moved by this many ticks (last frame longer, next first frame shorter)
+	Name           string
+	VideoTS        uint32 // media timescale of the video track
+	FrameDur       uint32 // duration of every video frame in VideoTS
+	SegFrames      []int  // video frames per segment
+	AudioSegs      []int  // audio frames (1024 @ 48 kHz) per audio segment; nil = no audio
+	UseTime        bool   // SegmentTimeline + $Time$ templates instead of $Number$ + duration
+	StartNr        int    // startNumber of $Number$ templates
+	Text           bool   // add an stpp track (1 sample per video segment, timescale 1000) -- needs whole-ms segments
+	ExtraVideo     string // id of a second video representation (same content), "" = none
+	ExtraSegFrames []int  // frames per segment of the second video representation (nil = as the first)
+	VideoID        string
+	TimeOffset     uint64 // first video tfdt (media time of the first VoD segment)
+	Shift          []int  // Shift[i]: the boundary after video segment i is moved by this many ticks (last frame longer, next first frame shorter)
 }
 
 type srcTrack struct {
